@@ -256,7 +256,7 @@ func (cfg *Config) applyJSONConfig(jcfg *jsonConfig) error {
 		}
 		cfg.NodeAddr = nodeAddr
 	}
-	config.SetIfNotDefault(jcfg.NodeHTTPS, &cfg.NodeHTTPS)
+	cfg.NodeHTTPS = jcfg.NodeHTTPS
 
 	config.SetIfNotDefault(jcfg.LogFile, &cfg.LogFile)
 
